@@ -236,6 +236,9 @@ pub fn scenarios() -> Vec<Scn> {
     history_scn("c08/M{post a aborts}||T{post b}", vec![vec![PostAborting(1)], vec![Post(2)]], Some(2), Some(3)),
     history_scn("c08/M{abort}||T{abort}", vec![vec![Abort], vec![Abort]], Some(3), Some(5)),
     history_scn("c08/T1{post a,abort}||T2{post b,abort}", vec![vec![], vec![Post(1), Abort], vec![Post(2), Abort]], None, Some(3)),
+    // a burst far longer than any small constant the queue might batch or cap by
+    history_scn("c08/M{post x24} burst, no abort", vec![(1..=24).map(Post).collect()], Some(1), Some(2)),
+    history_scn("c08/M{post x20, abort} burst", vec![(1..=20).map(Post).chain(std::iter::once(Abort)).collect()], Some(1), Some(2)),
   ];
   // the default scheduler runs the task synchronously inside post
   v.push({
